@@ -2,6 +2,7 @@ import Driver.QC
 import Driver.Sort
 import Driver.Codec
 import Driver.Cfg
+import Driver.Corr
 /-!
   The model driver (line protocol, DESIGN.md 3.5): reads one case per line on
   stdin, runs the executable Lean model, prints what it predicts.
@@ -35,5 +36,6 @@ def main (args : List String) : IO UInt32 := do
   | ["qc"] => loop stdin qcLine; return 0
   | ["sort"] => loop stdin sortLine; return 0
   | ["codec"] => loop stdin codecLine; return 0
+  | ["corr"] => loop stdin corrLine; return 0
   | ["cfg"] => loopSt stdin cfgStep {}; return 0
   | _ => IO.eprintln "usage: driver <engine>"; return 2
